@@ -73,24 +73,80 @@ class _RetOp:
         return None
 
 
-def check_decrypt_site(prog, body, blk, rep):
+def accumulated_xor_comparison(prog, body, tagl, dbb, after):
+    """hand-written constant-time comparison: `acc |= a ^ b` over the bytes of the computed and the stored tag, then a test of acc against 0. Accepted only
+    when EVERY update of the accumulator ORs its previous value in (a plain `acc = a ^ b` keeps the last byte only). Returns the same tuple as the
+    ct_eq form: (switch block, compare block, term, equal target, unequal target) or None."""
+    for b in body.blocks:
+        if b.idx not in after or b.cleanup:
+            continue
+        acc = None
+        eq_t = ne_t = None
+        r = branch_on_call(prog, body, b.idx)
+        ct = None
+        if r is not None and r[1].cmethod in ('ct_eq', 'eq', 'ne') and len(r[1].args) >= 2:
+            ct = r[1]
+            ops = [expr_of(body, a) for a in ct.args[:2]]
+            zero = [o for o in ops if (o[0] == 'const' and o[1] == 0) or (o[0] == 'ref' and False)]
+            cand = [a for a in ct.args[:2] if a.place is not None]
+            for a in cand:
+                o = origins(body, [a.place[0]], through_calls=False)
+                accs = [l for l in o.locals if body.lty(l) == 'u8' and len(body.defs.get(l, [])) >= 2]
+                if accs:
+                    acc = accs[0]
+            eq_t, ne_t = (r[2], r[3])
+        else:
+            si = switch_info(prog, body, b.idx)
+            if si and si['kind'] == 'bool':
+                e = expr_of(body, si['cond'])
+                if e[0] == 'binop' and e[1] in ('Eq', 'Ne') and e[3][0] == 'const' and e[3][1] == 0 and e[2][0] == 'place' and body.lty(e[2][1][0]) == 'u8':
+                    acc = e[2][1][0]
+                    eq_t, ne_t = (si['true'], si['false']) if e[1] == 'Eq' else (si['false'], si['true'])
+        if acc is None or eq_t is None:
+            continue
+        ok = True
+        n_or = 0
+        for (bb, si_, kind, obj) in body.defs.get(acc, []):
+            if kind != 'assign' or obj.kind != 'assign' or obj.place[1]:
+                ok = False
+                break
+            rv = obj.rv
+            if rv.r == 'use' and rv.ops[0].kind == 'const' and rv.ops[0].const_int() == 0:
+                continue
+            if rv.r == 'binop' and rv.j['op'] == 'BitOr':
+                sides = [o2 for o2 in rv.ops if o2.place is not None]
+                prev = [o2 for o2 in sides if acc in ({o2.place[0]} | origins(body, [o2.place[0]], through_calls=False).locals)]
+                other = [o2 for o2 in sides if o2 not in prev]
+                if prev and other:
+                    xo = origins(body, [other[0].place[0]])
+                    if (any(x[2].j.get('op') == 'BitXor' for x in xo.binops) or any(body.blocks[c].term.cmethod == 'bitxor' for c in xo.calls)) and tagl in xo.locals and (xo.params or (xo.calls - {dbb})):
+                        n_or += 1
+                        continue
+            ok = False
+            break
+        if ok and n_or >= 1:
+            return (b.idx, b.idx, ct or body.blocks[b.idx].term, eq_t, ne_t)
+    return None
+
+
+def check_decrypt_site(prog, body, blk, rep, RULE='R03.1'):
     t = blk.term
     fn = body.nkey
-    key = 'R03.1|%s|decrypt' % fn
+    key = RULE + '|%s|decrypt' % fn
     loc = body.loc(blk.idx)
     if t.dest is None or t.dest[1]:
-        rep.ob('R03.1', False, key, 'decrypt result is not bound to a local', loc)
+        rep.ob(RULE, False, key, 'decrypt result is not bound to a local', loc)
         return
     tagl = t.dest[0]
     dbb = blk.idx
     # buffer owners
     if len(t.args) < 2 or t.args[1].place is None:
-        rep.ob('R03.1', False, key, 'cannot identify the decrypted buffer', loc)
+        rep.ob(RULE, False, key, 'cannot identify the decrypted buffer', loc)
         return
     bo = origins(body, [t.args[1].place[0]])
     owners = {l for l in bo.locals if buf_types(body.lty(l))}
     if not owners:
-        rep.ob('R03.1', False, key, 'cannot identify the owner of the decrypted buffer', loc)
+        rep.ob(RULE, False, key, 'cannot identify the owner of the decrypted buffer', loc)
         return
     after = body.reachable(t.target) if t.target is not None else set()
     # find the comparison
@@ -137,13 +193,15 @@ def check_decrypt_site(prog, body, blk, rep):
         else:
             why.append('comparison %s at %s has operands %s' % (ct.cmethod, body.loc(cb), sides))
     if cmp_found is None:
-        rep.ob('R03.1', False, key,
+        cmp_found = accumulated_xor_comparison(prog, body, tagl, dbb, after)
+    if cmp_found is None:
+        rep.ob(RULE, False, key,
                'no comparison of the computed tag with stored tag bytes found after decrypt (%s)' % ('; '.join(why) or 'no ct_eq/== branch'), loc)
         return
     sbb, cb, ct, eq_tgt, ne_tgt = cmp_found
     eq_edge = (sbb, eq_tgt)
     if eq_tgt == ne_tgt:
-        rep.ob('R03.1', False, key, 'tag comparison does not branch', loc)
+        rep.ob(RULE, False, key, 'tag comparison does not branch', loc)
         return
     # exposures: stores through a deref / into _0 / passing to calls, of values flowing from the owners, after decrypt
     flow = forward_locals(body, owners)
@@ -179,9 +237,9 @@ def check_decrypt_site(prog, body, blk, rep):
         if not body.edge_dominates(eq_edge, ebb):
             bad.append('%s at %s' % (what, body.loc(ebb, si)))
     if not exposures:
-        rep.ob('R03.1', False, key, 'decrypted buffer is never exposed -- rule lost its anchor', loc)
+        rep.ob(RULE, False, key, 'decrypted buffer is never exposed -- rule lost its anchor', loc)
         return
-    rep.ob('R03.1', not bad, key,
+    rep.ob(RULE, not bad, key,
            ('decrypted data exposed without passing the tag-equal edge: ' + '; '.join(bad)) if bad else
            'tag from decrypt compared by %s at %s; %d exposure(s) all edge-dominated by the equal outcome' % (ct.cmethod, body.loc(cb), len(exposures)),
            loc)
